@@ -118,3 +118,58 @@ Qed.
 
 (* regular files are not affected: whatever the loop shape, a queued regular file with the recorded hash goes
    (CleanProofs.rdf_removes); the defect needs an output that is a link to another queued output that sorts after it *)
+
+(* ---- C07 at the level of Builder.finalize, for outputs of any kind, when the decisions come first ------------- *)
+
+Theorem orphans_removed_any_kind c g f n v :
+  rdf_decide_first = true ->
+  existsb (guard_fires c) finalize_guards = false ->          (* successful, unrestricted, cleaning enabled *)
+  keys_nodup g -> deps_closed g ->
+  In n (gnodes g) -> nkind n = KFILE -> ndet n = true ->
+  is_revert_target g n = false ->                                (* not an output of an attached optional step *)
+  bd_value n = Some v ->                                         (* VOLATILE (None), or BUILT/OUTDATED with its hash *)
+  (v = None \/ exists h, v = Some h /\ stat f (nlabel n) = SFile h) ->   (* reads as exactly the recorded hash *)
+  is_unlinkable (fs_get f (nlabel n)) = true ->                  (* a regular file or a symbolic link *)
+  (~ exists S, self_supporting g S /\ In (nkey n) S) ->          (* nothing attached and no cycle holds it *)
+  let r := finalize c (init_state g f) in
+  ~ In (nkey n) (map nkey (gnodes (s_g r))) /\ fs_get (s_fs r) (nlabel n) = None.
+Proof.
+  intros Hflag Hguard Hnd Hclosed Hn Hkind Hdet Hnot_rev Hv Hvv Hdisk Hfree. cbv zeta.
+  rewrite (finalize_unguarded c g f Hguard).
+  destruct (revert_optional g empty_queue) as [g1 q1] eqn:Hrev. cbv zeta. cbn [s_g s_fs].
+  assert (g1 = fst (revert_optional g empty_queue)) as Hg1 by (rewrite Hrev; reflexivity).
+  assert (prestep g1 = cleanup_graph g) as Hcg by (unfold cleanup_graph; rewrite Hg1; reflexivity).
+  set (n2 := prestep_node g1 (revert_node g n)).
+  assert (revert_node g n = n) as Hrn.
+  { unfold revert_node. assert (is_optional_step n = false) as ->.
+    { unfold is_optional_step. unfold nkind in Hkind. unfold nkind. rewrite Hkind. reflexivity. }
+    rewrite Hnot_rev. reflexivity. }
+  assert (nkey n2 = nkey n) as Hk2 by (unfold n2; rewrite prestep_node_key, Hrn; reflexivity).
+  assert (In n2 (gnodes (prestep g1))) as Hn2.
+  { rewrite Hcg, cleanup_graph_nodes. apply in_map_iff. exists n. rewrite <- Hg1. split; [reflexivity | exact Hn]. }
+  assert (keys_nodup (prestep g1)) as Hnd2 by (unfold keys_nodup; rewrite Hcg, cleanup_graph_keys; exact Hnd).
+  assert (deps_closed (prestep g1)) as Hcl2 by (rewrite Hcg; apply cleanup_graph_closed; exact Hclosed).
+  assert (~ In (nkey n) (map nkey (gnodes (dd_g (workflow_dd g1))))) as Hgone.
+  { unfold workflow_dd. intros Hin. apply (dd_survivors (prestep g1) Hnd2 Hcl2) in Hin.
+    destruct Hin as [S [Hss HS]]. apply Hfree. exists S. split; [|exact HS].
+    apply cleanup_graph_ss. rewrite <- Hcg. exact Hss. }
+  split; [exact Hgone|].
+  assert (In n2 (dd_deleted (workflow_dd g1))) as Hdel.
+  { unfold workflow_dd. rewrite trellis_dd_deleted. apply -> in_rev.
+    destruct (dd_loop_partition (dd_fuel (prestep g1)) (prestep g1) [] n2 Hnd2 Hn2) as [Hkeep|Hacc]; [|exact Hacc].
+    exfalso. apply Hgone. unfold workflow_dd. rewrite trellis_dd_keys, <- Hk2. apply in_map. exact Hkeep. }
+  assert (nkind n2 = KFILE) as Hkind2 by (unfold nkind; rewrite Hk2; exact Hkind).
+  assert (nlabel n2 = nlabel n) as Hlab2 by (unfold nlabel; rewrite Hk2; reflexivity).
+  assert (bd_value n2 = Some v) as Hv2.
+  { unfold bd_value, n2. rewrite prestep_node_fstate, prestep_node_fhash, Hrn. exact Hv. }
+  rewrite <- Hlab2.
+  apply (unmodified_queued_removed_two_pass Hflag _ f (nlabel n2) v);
+    [| rewrite Hlab2; exact Hvv | rewrite Hlab2; exact Hdisk].
+  apply queue_deleted_sets; [exact Hdel | exact Hkind2 | | exact Hv2].
+  intros x Hx Hxk Hxl.
+  apply (nodup_map_inj nkey (gnodes (prestep g1))); [exact Hnd2 | | exact Hn2 |].
+  - unfold workflow_dd in Hx. rewrite trellis_dd_deleted in Hx. apply in_rev in Hx.
+    unfold dd_raw in Hx. apply dd_loop_acc_sub in Hx. destruct Hx as [[]|Hx]. exact Hx.
+  - unfold nkind in Hxk, Hkind2. unfold nlabel in Hxl.
+    destruct (nkey x) as [kx lx], (nkey n2) as [k2 l2]. cbn [fst snd] in *. congruence.
+Qed.
